@@ -184,6 +184,10 @@ func cmdShard(args []string) int {
 		world = conc.World{}
 		tag = sim.Mix(tag, sim.HashString("Y"))
 	}
+	if *wname == "Ycold" {
+		world = conc.World{Cold: true}
+		tag = sim.Mix(tag, sim.HashString("Ycold"))
+	}
 	b := &sim.Batch{World: world, Opt: sim.Options{Property: *p, Tier: *tier, Known: loadKnown(), Seed: *seed},
 		Tag: tag, Runs: *runs, Budget: time.Duration(*budget * float64(time.Second)), Workers: *workers, First: *first, Stride: *stride}
 	agg := b.Run()
@@ -228,6 +232,92 @@ func exeFor(world string) string {
 	}
 	exe, _ := os.Executable()
 	return exe
+}
+
+// runColdY runs cold-start groups of world Y: one group per process, index
+// by index, up to n groups (n > 0) or until the budget is used.
+func runColdY(exe, p, tier string, seed uint64, n int64, budget float64, procs int) (*sim.Agg, error) {
+	total := sim.NewAgg()
+	start := time.Now()
+	var firstErr error
+	next := int64(0)
+	for {
+		if n > 0 && next >= n {
+			break
+		}
+		if n == 0 && time.Since(start).Seconds() > budget {
+			break
+		}
+		// a wave of procs single-group processes
+		lo, hi := next, next+int64(procs)
+		if n > 0 && hi > n {
+			hi = n
+		}
+		a, err := runShardedExeRange(exe, "Ycold", p, tier, seed, lo, hi)
+		if err != nil && firstErr == nil {
+			firstErr = err
+		}
+		if a != nil {
+			total.Merge(a)
+		}
+		next = hi
+	}
+	total.WallS = time.Since(start).Seconds()
+	return total, firstErr
+}
+
+// runShardedExeRange runs the indices lo..hi-1, each in its own process.
+func runShardedExeRange(exe, wname, p, tier string, seed uint64, lo, hi int64) (*sim.Agg, error) {
+	type res struct {
+		agg *sim.Agg
+		err error
+	}
+	ch := make(chan res, hi-lo)
+	for k := lo; k < hi; k++ {
+		k := k
+		go func() {
+			ctx, cancel := context.WithTimeout(context.Background(), 15*time.Minute)
+			defer cancel()
+			tmp, terr := os.CreateTemp("", "simcheck-shard-*.json")
+			if terr != nil {
+				ch <- res{nil, terr}
+				return
+			}
+			tmp.Close()
+			defer os.Remove(tmp.Name())
+			cmd := exec.CommandContext(ctx, exe, "shard", "-p", p, "-tier", tier, "-seed", fmt.Sprint(seed), "-runs", fmt.Sprint(k+1),
+				"-first", fmt.Sprint(k), "-stride", "1", "-workers", "1", "-out", tmp.Name(), "-world", wname)
+			cmd.Env = append(os.Environ(), "GOMAXPROCS=2")
+			cmd.Stderr = os.Stderr
+			if err := cmd.Run(); err != nil {
+				ch <- res{nil, fmt.Errorf("cold group %d: %v", k, err)}
+				return
+			}
+			out, err := os.ReadFile(tmp.Name())
+			if err != nil {
+				ch <- res{nil, err}
+				return
+			}
+			a := &sim.Agg{}
+			if err := json.Unmarshal(out, a); err != nil {
+				ch <- res{nil, err}
+				return
+			}
+			a.Unseal()
+			ch <- res{a, nil}
+		}()
+	}
+	total := sim.NewAgg()
+	var firstErr error
+	for k := lo; k < hi; k++ {
+		r := <-ch
+		if r.err != nil {
+			firstErr = r.err
+			continue
+		}
+		total.Merge(r.agg)
+	}
+	return total, firstErr
 }
 
 func runShardedExe(exe, wname, p string, tier string, seed uint64, runs int64, budget float64, procs int) (*sim.Agg, error) {
@@ -368,6 +458,19 @@ func cmdCheck(args []string) int {
 			}
 			y0 := time.Now()
 			ya, err := runShardedExe(yb, "Y", *p, *tier, seed, yruns, ybudget, workers)
+			if err == nil {
+				// cold-start groups: one per process, concurrent before alone
+				cn, cb := int64(96), 0.0
+				if runs == 0 {
+					cn, cb = 0, budget/16
+				}
+				ca, cerr := runColdY(yb, *p, *tier, seed, cn, cb, workers)
+				if cerr != nil {
+					err = cerr
+				} else {
+					ya.Merge(ca)
+				}
+			}
 			ya.WallS = time.Since(y0).Seconds()
 			if err != nil {
 				fmt.Fprintln(os.Stderr, "HARNESS-FAULT (world Y):", err)
@@ -399,6 +502,7 @@ func cmdCheck(args []string) int {
 			yinfo["wall_s"] = ya.WallS
 			yinfo["groups"] = ya.Counters["probe.conc.groups"]
 			yinfo["hands"] = ya.Counters["probe.conc.hands"]
+			yinfo["cold_start_groups"] = ya.Counters["probe.conc.cold-start-groups"]
 			yinfo["switches_inside_engine_calls"] = ya.Counters["fault.goroutine-switch-inside-engine-call"]
 			yinfo["scheduling_points_passed"] = ya.Counters["probe.conc.scheduling-points"]
 			yinfo["groups_with_switches"] = ya.Nontrivial
@@ -409,7 +513,7 @@ func cmdCheck(args []string) int {
 			for k, v := range ya.Viol {
 				agg.Viol[k] = v
 			}
-			for _, k := range []string{"fault.goroutine-switch-inside-engine-call", "fault.switch-because-blocked-on-lock", "probe.conc.groups", "probe.conc.hands", "probe.conc.deadlock", "probe.conc.skipped-after-deadlock", "probe.conc.policy-focus-function", "probe.conc.policy-quantum"} {
+			for _, k := range []string{"fault.goroutine-switch-inside-engine-call", "fault.switch-because-blocked-on-lock", "probe.conc.groups", "probe.conc.hands", "probe.conc.deadlock", "probe.conc.skipped-after-deadlock", "probe.conc.policy-focus-function", "probe.conc.policy-quantum", "probe.conc.cold-start-groups"} {
 				if v := ya.Counters[k]; v > 0 {
 					agg.Counters[k] += v
 				}
@@ -666,6 +770,9 @@ func cmdDetHash(args []string) int {
 	if *wname == "Y" {
 		w = conc.World{}
 	}
+	if *wname == "Ycold" {
+		w = conc.World{Cold: true}
+	}
 	opt := sim.Options{Property: *p, Tier: *tier, Known: loadKnown(), Seed: seed, KeepLog: true}
 	hashes := make([]uint64, *runs)
 	ch := make(chan int64, *runs)
@@ -690,7 +797,7 @@ func cmdDetHash(args []string) int {
 				for _, v := range r.Violations {
 					h = sim.Mix(h, sim.HashString(v.Sig))
 				}
-				if *wname == "Y" {
+				if *wname == "Y" || *wname == "Ycold" {
 					if os.Getenv("VERIF_YDEBUG") != "" {
 						fmt.Fprintf(os.Stderr, "group %d: points=%d accepted=%d steps=%d vio=%d fault=%q\n", i, r.Counters["probe.conc.scheduling-points"], r.Counters["op.action-offered.accepted"], r.Steps, len(r.Violations), r.Fault)
 						if r.Case != nil {
@@ -766,11 +873,17 @@ func cmdMinimise(args []string) int {
 	}
 	opt := sim.Options{Property: c.Expect.Property, Tier: "thorough", Known: loadKnown(), Seed: c.Seed}
 	orig := len(c.Steps)
+	var yFirst *sim.Violation
 	if c.World == "Y" {
 		// hands that block each other leave their goroutines (and the locks
 		// they hold) behind: such a case can be executed once per process,
 		// so it is kept as recorded
 		r0 := w.Replay(&c, opt)
+		for i := range r0.Violations {
+			if v := r0.Violations[i]; v.Property == c.Expect.Property && v.Sig == c.Expect.Signature {
+				yFirst = &r0.Violations[i]
+			}
+		}
 		if conc.Poisoned() {
 			for _, v := range r0.Violations {
 				if v.Property == c.Expect.Property && v.Sig == c.Expect.Signature {
@@ -806,6 +919,18 @@ func cmdMinimise(args []string) int {
 			fmt.Println("minimised", orig, "->", len(min.Steps))
 			return 0
 		}
+	}
+	if c.World == "Y" && yFirst != nil {
+		// the first execution in this process showed it, later ones do not:
+		// the case depends on the process being fresh. Kept as recorded.
+		c.Expect = &sim.Expect{Property: yFirst.Property, Signature: yFirst.Sig, Detail: yFirst.Detail, Step: yFirst.Step}
+		c.Note = fmt.Sprintf("not minimised (reproduces only as the first thing a process does); original sub-seed %d of VERIF_SEED=%d", c.SubSeed, c.Seed)
+		if err := writeCase(args[1], &c); err != nil {
+			fmt.Println("write:", err)
+			return 2
+		}
+		fmt.Println("kept as recorded:", orig, "steps")
+		return 0
 	}
 	fmt.Println("the violation does not occur when the case is replayed in a clean process")
 	return 3
